@@ -169,6 +169,21 @@ CHECKS["C10"] = dict(
     technique="translator-regenerated unit tables + Lean 4 proof (decide over the tables, ring/field_simp scaling laws) + six-unit metamorphic runs on the real tools",
 )
 
+CHECKS["C11"] = dict(
+    category="proof",
+    text=("Lean theorems (Properties/C11.lean), over any field and hence for the real and the complex-symmetric systems alike: "
+          "solutions of K x = b superpose when K does not depend on the excitation; zero excitation is solved by the zero field; "
+          "for symmetric K the reaction collected on terminal j in the field of a unit value on i equals the reaction on i in the "
+          "field of j (capacitance / conductance / inductance matrices symmetric); the element source terms of the model tied to "
+          "the code are linear and the stiffness element is independent of the excitation; symmetry of storage comes from C09. "
+          "Decided on the REAL tools for every formulation, including those without an independent assembly oracle "
+          "(axisymmetric magnetostatics, time-harmonic planar and axisymmetric): triples of runs (S1, S2, a*S1+b*S2) and a "
+          "zero-excitation run on the identical mesh compared node by node, reciprocity pairs through the real "
+          "post-processor, and a harmonic solve at vanishing frequency against the static one."),
+    design_ref="DESIGN.md section 3, C11",
+    technique="Lean 4 proof (abstract linear algebra: superposition, symmetric bilinear form => reciprocity) + run triples / reciprocity pairs on the real tools in all eight formulations",
+)
+
 NOT_YET = "check not built yet in this round; planned per DESIGN.md section 3 (Lean model + correspondence)"
 
 
